@@ -5,5 +5,5 @@ CONSTANTS
   FaultDirs = {"s2c"}
   Deltas = {1, 128}
 SPECIFICATION Spec
-INVARIANTS TypeOK SessionAgreement DeliveredIsPrefixOfSent NothingFromHitFrameOn AllUndamagedDelivered
+INVARIANTS TypeOK NoFaultNoReject SessionAgreement DeliveredIsPrefixOfSent NothingFromHitFrameOn AllUndamagedDelivered
 CHECK_DEADLOCK FALSE
